@@ -331,6 +331,13 @@ func Histories(c *fw.Ctx, mon Monitors, n, steps int) {
 			c.Inconclusive("materialise: " + err.Error())
 			return
 		}
+		// a quarter of the histories serve the same directory through a
+		// non-canonical spelling of the configured root
+		spelling := -1
+		if hi%4 == 3 {
+			spelling = hi / 4
+		}
+		c.Observe("histories", "root-spelling "+e.UseRootSpelling(spelling), 1)
 		var trace []davtree.Req
 		shapes := map[string]bool{}
 		for s := 0; s < steps; s++ {
